@@ -32,6 +32,9 @@ CHECKS = {
  "C09": dict(technique="runtime monitoring: reference-model oracle (independent segment matcher + server URL model) over FindRoute executions of both routers, with a history monitor on previously returned routes",
    text="For all single/pair (and sampled or all triple) template sets over {a,b,{x},{y}} of <=3 segments x 6 server layouts (none, relative, absolute, two servers, host/base variables, path-item servers) x filled URLs and near misses x GET/POST/DELETE, each FindRoute result of gorillamux and legacy is judged: returned operation is pointer-identical to the declared one, substitution of returned parameters reproduces the path after the base, every fill of a declared template with a declared method is routed, a literal template wins, non-matching URLs give a RouteError, and a route returned earlier is unchanged by later calls.",
    note="Relative/no servers use server-side style requests (path-only URL, Host header), absolute servers use absolute request URLs; trailing slashes are insignificant for the legacy router (its documented convention); path-item servers are exercised on gorillamux only (the legacy router only knows document servers).", ref="4 C09"),
+ "C10": dict(technique="runtime monitoring: crash monitors (recover() guard with stack signatures, child-process fatal-error log with write-ahead case attribution, CPU-time watchdog, address-space limit, allocation probe) over generated valid documents x hostile traffic",
+   text="Hundreds (quick) / thousands (thorough) of generated documents that pass Validate, half biased to legal-but-unusual features, plus every validating document under the repository's testdata, each with both routers, are driven with grammar-built requests mutated at the byte level and with hostile responses through NewRouter, FindRoute, ValidateRequest, ValidateResponse (incl. nil body), ConvertErrors, the error encoders and both middleware modes under 8 option sets; any panic, fatal error, >30 CPU-second message or memory blow-up is a violation attributed to its message. Two inputs recorded as open findings run as probes in a shard of their own.",
+   note="Only documents that load and validate are in scope (others are counted and discarded). Schedule-dependent crashes are C15's business. Non-productive schema cycles are kept out of the random generator (they are the probe) so that one known crash does not end every shard.", ref="4 C10"),
 }
 NOT_YET = {}
 def main():
